@@ -239,6 +239,25 @@ example (args : List Nat) (hargs : ArgsOK frontcfLoop.sig args) (w : World) (ec 
 example : Wz.Model.FrontendCF.runSpec frontcfLoop [3] 40 = .values [3] := by unfold frontcfLoop; frontcf_eval
 example : run frontcfWorld (lowerCF frontcfLoop) [0xec, 0x3c, 3] 10 = .values [3] [] [] := by decide +kernel
 
+/-- the same loop with the counter passed as a Wasm-level block PARAMETER (`loop (param i32) (result i32)`): the header
+`blk1` gets the parameter `v5` at once (`addBlockParamsFromWasmTypes`) and `v9` for the local at `Seal`; the block after
+the loop gets the result parameter `v6`.  Model and textual tie only: the reference semantics `Wz.Spec.Wasm` has no
+block parameters, so the checker (and `wellTyped`) refuse it; the SSA run is a test on one input. -/
+def frontcfLoopParam : Function := Function.mk [.i32] [.i32] [.i32]
+  [.op (.const .i32 0),
+   .loop ⟨[.i32], [.i32]⟩ [.op (.const .i32 1), .op (.bin .i32 .add), .op (.localTee 1), .op (.localGet 1),
+      .op (.localGet 0), .op (.rel .i32 .ltU), .brIf 0]]
+
+example : format frontcfLoopParam =
+    ["blk0: (exec_ctx:i64, module_ctx:i64, v2:i32)", "v3:i32 = Iconst_32 0x0", "v4:i32 = Iconst_32 0x0",
+     "Jump blk1, v4, v2", "blk1: (v5:i32,v9:i32) <-- (blk0,blk1)", "v7:i32 = Iconst_32 0x1", "v8:i32 = Iadd v5, v7",
+     "v10:i32 = Icmp lt_u, v8, v9", "Brnz v10, blk1, v8, v9", "Jump blk3",
+     "blk2: (v6:i32) <-- (blk3)", "Jump blk_ret, v6", "blk3: () <-- (blk1)", "Jump blk2, v8"] := by decide +kernel
+
+example : validate frontcfLoopParam = false ∧ wellFormedA (lowerCF frontcfLoopParam) = true :=
+  ⟨by decide +kernel, by decide +kernel⟩
+example : run frontcfWorld (lowerCF frontcfLoopParam) [0xec, 0x3c, 3] 10 = .values [3] [] [] := by decide +kernel
+
 /-- an `if`/`else` that joins two definitions of a local: `if (x) y = 1 else y = 2; return y`.  The read after the
 join makes `findValue` add a parameter to the join block and an argument to the jump of each arm. -/
 def frontcfJoin : Function := Function.mk [.i32] [.i32] [.i32]
